@@ -177,7 +177,7 @@ impl<'a> PrettyPrinter<'a> {
             mixed_text,
         } in repr.lines
         {
-            for node in nodes {
+            for (i, node) in nodes.iter().enumerate() {
                 doc += if node.kind() == SyntaxKind::Space {
                     self.arena.space()
                 } else if let Some(text) = node.cast::<Text>() {
@@ -188,7 +188,10 @@ impl<'a> PrettyPrinter<'a> {
                     } else {
                         ctx
                     };
-                    self.convert_expr(ctx, expr)
+                    // Content directly behind embedded code, as in `#(1)em`.
+                    let glued = matches!(expr, Expr::Parenthesized(_))
+                        && (nodes.get(i + 1)).is_some_and(|next| next.kind() != SyntaxKind::Space);
+                    self.convert_expr(ctx.with_glued(glued), expr)
                 } else if is_comment_node(node) {
                     self.convert_comment(ctx, node)
                 } else {
